@@ -14,16 +14,17 @@ def fault_run(nq=150, nt=400, sq=8, st=14, gov=False, inflation=False):
 
 CFG = dict(
     level="other",
-    lean_modules=["ElysModel.Props.C18"],
-    props_files=["ElysModel/Props/C18.lean"],
+    lean_modules=["ElysModel.Props.C18", "ElysModel.Props.C18Src"],
+    pre_cmds=[GO2LEAN],
+    props_files=["ElysModel/Props/C18.lean", "ElysModel/Props/C18Src.lean"],
     runs=[scn_run("c18"), fault_run(), hist_run(sq=4, st=6), fault_run(nq=200, sq=5, st=12, gov=True), fault_run(nq=200, sq=5, st=12, gov=True, inflation=True)],
     rule=HIST_RULE + "; with fault sequences: oracle outages (some or all prices removed for 1-6 blocks), block-time gaps of 25 h to 400 days (many epochs at once, every price "
          "expired), fees paid in uusdc/uatom/uelys, dust amounts from 1 base unit, exits of almost all liquidity; governance shocks (one field of a governance-gated message - "
          "parameter updates of every module, pool parameters, vesting schedules, inflation entries, reward toggles - set to a boundary value of its type and applied like a passed "
          "proposal when ValidateBasic and the module's own handler accept it); one history in three (and every history of the last run) with Eden inflation and Eden rewards on; "
          "plus directed scenarios (prefix c18)",
-    trusted_base=COMMON_TB + ["a block failure is FinalizeBlock returning an error or panicking, observed directly"],
-    assumptions=["partial: the Lean model is the error skeleton of the one end-blocker whose error reaches ABCI (masterchef); panics deep inside unmodelled keepers, out-of-gas, "
+    trusted_base=COMMON_TB + [SRC_TB, "a block failure is FinalizeBlock returning an error or panicking, observed directly"],
+    assumptions=[SRC_ASSUME, "source tie of the collectors: sdk.Coins / sdk.DecCoins are read as ONE denom (the base currency the collectors convert everything to first); a bank transfer is taken to succeed, the theorems say that what is sent was there to send", "partial: the Lean model is the error skeleton of the one end-blocker whose error reaches ABCI (masterchef); panics deep inside unmodelled keepers, out-of-gas, "
                  "DB faults and nil pointers cannot be exhibited by the model and are reached only by the fault-sequence runs (tests)",
                  "parameter settings are explored by single-field boundary shocks of the governance messages the C17 constructor table knows (one field at a time, a fixed set of "
                  "boundary values per type), not exhaustively; the static table of blocker error/panic sites (DESIGN 3.2 Gen/Blockers) is not built"],
